@@ -13,7 +13,7 @@ import time
 ROOT = os.path.dirname(os.path.dirname(os.path.abspath(__file__)))
 REPO = os.environ.get("VERIF_REPO", "/repo")
 # development runs against a scratch copy (VERIF_REPO=...) must not overwrite the evidence of /repo
-_SCRATCH = os.path.realpath(REPO) != "/repo"
+_SCRATCH = os.path.realpath(REPO) != "/repo" or os.environ.get("VERIF_SCRATCH") == "1"
 EVIDENCE_DIR = os.path.join(ROOT, "evidence") if not _SCRATCH else "/var/tmp/vv_scratch_evidence"
 REPLAY_DIR = os.path.join(ROOT, "replay") if not _SCRATCH else "/var/tmp/vv_scratch_replay"
 KNOWN = os.path.join(ROOT, "known_findings.json")
